@@ -1093,6 +1093,9 @@ class Function(Ring):
         self[...] = result
         return self
 
+    def __ipow__(self,rhs):
+        return self._inplace(self ** rhs)
+
     def __iadd__(self,rhs):
         return self._inplace(self + rhs)
 
